@@ -93,7 +93,7 @@ def markup_chars(T, conv, mode, dev, showpageno=True):
         if "wk" in T[j - 1]:
             return T[j - 1]["wk"]
         par = max([q for q in range(1, j) if T[q - 1]["d"] == T[j - 1]["d"] - 1] or [0])
-        return T[j - 1]["a"] + 2 * par
+        return T[j - 1]["a"] + 100000 * par
     if conv == "html":
         out += [LT, H_HTML, GT, LT, H_HEAD, GT, LF] + open_tag(H_META, qattr(B_HTTPEQUIV, [G_CONTENTTYPE]) + qattr(B_CONTENT, [G_TEXTHTML])) + [LF]
         out += end_tag(H_HEAD) + [LT, H_BODY, GT, LF]
